@@ -80,7 +80,7 @@ def main():
         dst = os.path.join(ROOT, "seeded", name)
         meta_p = os.path.join(dst, "meta.json")
         meta = json.load(open(meta_p)) if os.path.exists(meta_p) else {}
-        patch = os.path.join(sd, "patch.diff")
+        patch = os.path.join(sd, "patch.rebased.diff") if os.path.exists(os.path.join(sd, "patch.rebased.diff")) else os.path.join(sd, "patch.diff")
         pdirs = sorted({os.path.dirname(m) for m in re.findall(r"^\+\+\+ b/(\S+)", open(patch, errors="replace").read(), re.M)})
         if not sync(wt):
             print(name, "cannot sync worktree"); continue
@@ -103,7 +103,15 @@ def main():
             if ok:
                 rc, o = sh(["git", "apply", patch], wt)
                 if rc != 0:
-                    ok = False; steps.append("patch does not apply to current /repo HEAD: " + o[-300:])
+                    rc, o2 = sh(["git", "apply", "-3", patch], wt)
+                    if rc == 0 and "with conflicts" not in o2:
+                        sh("git reset -q", wt)
+                        steps.append("patch applied with a 3-way merge (the code moved since the author's base)")
+                        rebased = subprocess.run(["git", "diff"], cwd=wt, capture_output=True, text=True).stdout
+                        open(os.path.join(sd, "patch.rebased.diff"), "w").write(rebased)
+                        patch = os.path.join(sd, "patch.rebased.diff")
+                    else:
+                        ok = False; steps.append("patch does not apply to current /repo HEAD: " + o[-300:])
             if ok:
                 rc, o = sh(["go", "build", "./..."], wt, 1800)
                 steps.append("go build ./... with patch: " + ("ok" if rc == 0 else "FAIL"))
@@ -119,6 +127,17 @@ def main():
                 for f in demo_files(sd):
                     shutil.copy(f, os.path.join(wt, dest))
                 rc, o = sh(["go", "test", "-vet=off", "-count=1", "-run", rx, "./" + dest + "/"], wt, 1800)
+                if rc == 0:  # demos that force a schedule through verifhook need the tag (the mutant itself does not)
+                    rc0, o0 = sh(["go", "test", "-tags", "verif", "-vet=off", "-count=1", "-run", rx, "./" + dest + "/"], wt, 1800)
+                    if rc0 != 0:
+                        clean(wt)
+                        for f in demo_files(sd):
+                            shutil.copy(f, os.path.join(wt, dest))
+                        rcw, _ = sh(["go", "test", "-tags", "verif", "-vet=off", "-count=1", "-run", rx, "./" + dest + "/"], wt, 1800)
+                        sh(["git", "apply", patch], wt)
+                        if rcw == 0:
+                            rc, o = rc0, o0
+                            steps.append("demo needs -tags verif (forces its schedule through verifhook): passes without the patch")
                 steps.append("demo with patch: " + ("FAIL (as required) " + " ".join(re.findall(r"^--- FAIL: (\S+)", o, re.M)[:4]) if rc != 0 else "passes -> NOT demonstrated"))
                 ok = rc != 0
             clean(wt)
@@ -137,7 +156,7 @@ def main():
         os.makedirs(dst, exist_ok=True)
         for f in glob.glob(os.path.join(sd, "*")):
             b = os.path.basename(f)
-            if os.path.isfile(f) and (b in ("patch.diff", "demo.md") or b.endswith("_test.go") or b.endswith(".go")):
+            if os.path.isfile(f) and (b in ("patch.diff", "patch.rebased.diff", "demo.md") or b.endswith("_test.go") or b.endswith(".go")):
                 shutil.copy(f, dst)
         src_meta = {}
         try:
